@@ -16,11 +16,19 @@ out = {}
 for rel in sorted(files):
     with open(os.path.join(REPO, SRC, rel), encoding="utf-8") as f:
         text = f.read()
+    # (the spelling normalisations that every analysed tree goes through BEFORE locals are recovered are applied here as well, so
+    # that the first-binding signatures are compared like with like: getattr / get_annotation("lit") / slice() / star literals)
+    from sa import normalize as _nz
     if rel.endswith(".py"):
-        out[rel] = localnames.build(ast.parse(text))
+        tree_ = ast.parse(text)
+        _nz._Getattr().visit(tree_)
+        ast.fix_missing_locations(tree_)
+        out[rel] = localnames.build(tree_)
     else:
         from sa import pyxfront
         low = pyxfront.lower(rel, text)
+        _nz._Getattr().visit(low.tree)
+        ast.fix_missing_locations(low.tree)
         out[rel] = localnames.build(low.tree, low)
 # parameter names of the repository's own callables (functions by name, classes by their constructor), kept when the name is
 # unambiguous over all modules read: used to move keyword arguments back into their positions (normalize.positionalise_new_keywords)
@@ -59,6 +67,33 @@ for rel in sorted(files):
                 if isinstance(m, ast.FunctionDef) and not m.name.startswith("__"):
                     static = any(isinstance(d, ast.Name) and d.id == "staticmethod" for d in m.decorator_list)
                     note("." + m.name, params(m, not static), m)
+# what the repository's own functions hand back: the parameters (self included) whose object the return value may be or hold
+# (effects.return_aliases per module; names that occur more than once are merged) - alias.call_kind consults it for calls of
+# repository functions by plain name and for methods on arbitrary receivers
+from sa import effects as _eff
+rets = {}
+for rel in sorted(files):
+    with open(os.path.join(REPO, SRC, rel), encoding="utf-8") as f:
+        text = f.read()
+    tree = ast.parse(text) if rel.endswith(".py") else _pf.lower(rel, text).tree
+    funcs = dict(_pf.iter_funcs(tree))
+    try:
+        ra = _eff.return_aliases(funcs)
+    except Exception as e:
+        print("return_aliases failed for", rel, e)
+        continue
+    for q, ps in ra.items():
+        fn = funcs[q]
+        a = fn.args
+        names = [x.arg for x in a.posonlyargs + a.args]
+        is_method = "." in q and names[:1] and names[0] in ("self", "cls")
+        key = ("." if "." in q else "") + q.split(".")[-1]
+        pos = [names.index(p_) - (1 if is_method else 0) for p_ in ps if p_ in names and not (is_method and p_ == names[0])]
+        ent = rets.setdefault(key, {"params": [], "pos": [], "self": False})
+        ent["params"] = sorted(set(ent["params"]) | {p_ for p_ in ps if not (is_method and p_ == names[0])})
+        ent["pos"] = sorted(set(ent["pos"]) | set(pos))
+        ent["self"] = ent["self"] or bool(is_method and names[0] in ps)
+out["__returns__"] = rets
 out["__signatures__"] = {k: v for k, v in sigs.items() if k not in clash}
 out["__defaults__"] = {k: v for k, v in dfl.items() if k not in clash and k not in clash_d and v}
 with open(os.path.join("/verif/sa/localnames.json"), "w") as f:
